@@ -197,6 +197,10 @@ func TestPropCircuitIDKeys(t *testing.T) {
 		}
 		contended, reacquired := false, false
 		removedOnce := map[int]bool{}
+		// evidence for the "entry is gone" classification: an entry can only have been removed by the expiry of a circuit-id
+		// sharing its key if that expiry happened AFTER the entry's own latest lease; otherwise the loss has another cause
+		tick := 0
+		leasedAt, expiredAt := map[int]int{}, map[int]int{}
 		check := func(rt *rapid.T, op string) bool {
 			for i := range subs {
 				if inFixed[i] {
@@ -204,7 +208,7 @@ func TestPropCircuitIDKeys(t *testing.T) {
 					if err != nil {
 						// gone although never expired: some other circuit-id's expiry deleted the key they share?
 						for j := range subs {
-							if j != i && bngebpf.MakeCircuitIDKey(subs[i].cid) == bngebpf.MakeCircuitIDKey(subs[j].cid) {
+							if j != i && expiredAt[j] > leasedAt[i] && bngebpf.MakeCircuitIDKey(subs[i].cid) == bngebpf.MakeCircuitIDKey(subs[j].cid) {
 								return !h.fail(rt, "fixed-key-shared/"+sharedKind(subs[i].cid, subs[j].cid), "after %s: circuit-id %d (%x, %d bytes) is in use but its entry is gone (%v): circuit-id %d (%x, %d bytes) maps to the same key %x and was expired", op, i, subs[i].cid, len(subs[i].cid), err, j, subs[j].cid, len(subs[j].cid), bngebpf.MakeCircuitIDKey(subs[i].cid))
 							}
 						}
@@ -223,7 +227,7 @@ func TestPropCircuitIDKeys(t *testing.T) {
 					got, err := tb.loader.GetCircuitIDMapping(subs[i].cid)
 					if err != nil {
 						for j := range subs {
-							if j != i && bngebpf.HashCircuitID(subs[i].cid) == bngebpf.HashCircuitID(subs[j].cid) {
+							if j != i && expiredAt[j] > leasedAt[i] && bngebpf.HashCircuitID(subs[i].cid) == bngebpf.HashCircuitID(subs[j].cid) {
 								return !h.fail(rt, "hash-key-shared/"+hashShareKind(subs[i].cid, subs[j].cid), "after %s: circuit-id %d (%q) is in use but its entry is gone (%v): circuit-id %d (%q) has the same HashCircuitID %016x and was expired (independent FNV-1a-64: %016x / %016x)", op, i, subs[i].cid, err, j, subs[j].cid, bngebpf.HashCircuitID(subs[i].cid), fnv64(subs[i].cid), fnv64(subs[j].cid))
 							}
 						}
@@ -251,6 +255,8 @@ func TestPropCircuitIDKeys(t *testing.T) {
 				asg := subs[i].asg
 				e2 := tb.loader.AddCircuitIDSubscriber(subs[i].cid, &asg)
 				h.logf("lease(cid%d)=%s,%s", i, okerr(e1), okerr(e2))
+				tick++
+				leasedAt[i] = tick
 				// an id the table refuses is simply not in use there
 				if e1 == nil {
 					inHash[i] = true
@@ -273,6 +279,8 @@ func TestPropCircuitIDKeys(t *testing.T) {
 				e1 := tb.loader.RemoveCircuitIDMapping(subs[i].cid)
 				e2 := tb.loader.RemoveCircuitIDSubscriber(subs[i].cid)
 				h.logf("expire(cid%d)=%s,%s", i, okerr(e1), okerr(e2))
+				tick++
+				expiredAt[i] = tick
 				if inFixed[i] && e2 != nil {
 					if h.fail(rt, "fixed-key-lost/expire", "RemoveCircuitIDSubscriber(cid%d) fails although it is in use: %v", i, e2) {
 						return
